@@ -144,7 +144,16 @@ def strategy(cfg):
 
 
 def items(cfg):
-    return [(src, want) for src, want in CAUSES]
+    out = [(src, want) for src, want in CAUSES]
+    # the same causes after a handler has been armed and disarmed again:
+    # the error must be fatal with the same category
+    for src, want in CAUSES:
+        if 'ON ERROR' in src.upper() or 'SUB ' in src.upper() or \
+                'FUNCTION ' in src.upper() or 'DATA' in src.upper():
+            continue
+        out.append(('ON ERROR GOTO hzz\nON ERROR GOTO 0\n' + src +
+                    'END\nhzz: PRINT "handler"\nRESUME NEXT\n', want))
+    return out
 
 
 def totality(text, script, cfg, seedv=0, interrupts=True):
